@@ -429,3 +429,34 @@ func goSyntax(t types.Type, v value) (string, bool) {
 	}
 	return "", false
 }
+
+// sort.Slice and friends use reflection (reflectlite.Swapper): done here on the interpreter's own slice representation.
+func extSortSlice(stable bool) externalFn {
+	return func(fr *frame, args []value) value {
+		itf, ok := args[0].(iface)
+		if !ok {
+			unsupported("sort.Slice of %T", args[0])
+		}
+		s, ok := itf.v.([]value)
+		if !ok {
+			unsupported("sort.Slice of %T", itf.v)
+		}
+		less := func(i, j int) bool {
+			r := call(fr.i, fr, token.NoPos, args[1], []value{i, j})
+			return condBool(r)
+		}
+		// insertion sort driven by the user's less (stable; the element count in the analysed code is small); elements are swapped in place
+		for i := 1; i < len(s); i++ {
+			for j := i; j > 0 && less(j, j-1); j-- {
+				journalSlice(s[j-1 : j+1])
+				s[j], s[j-1] = s[j-1], s[j]
+			}
+		}
+		return nil
+	}
+}
+
+func init() {
+	externals["sort.Slice"] = extSortSlice(false)
+	externals["sort.SliceStable"] = extSortSlice(true)
+}
